@@ -2313,6 +2313,8 @@ def chain_child(scope):
     # of tuples
     nxt_in_chain = scope[LAST_CHILD_SCOPE]
     nxt_in_chain.maps[0][NO_PYFRAME] = True
+    # a mode set by the previous link applies to that link only
+    nxt_in_chain.maps[0][MODE] = scope.maps[0][MODE]
     # previous failed branches are forgiven as the
     # scope is re-wired into a new stack
     del nxt_in_chain.maps[0][CHILD_ERRORS][:]
